@@ -521,3 +521,26 @@ def module_level_names(module):
             elif isinstance(n, (ast.FunctionDef, ast.ClassDef)):
                 out.add(n.name)
     return out
+
+
+def is_param_or_defaulted(expr, pname, defs, depth=3):
+    """expr is the parameter `pname` itself, or the parameter with a None default filled in (`<const> if pname is None else pname`, also through a local bound once to
+    such an expression).  Returns True / False."""
+    if isinstance(expr, ast.Name):
+        if expr.id == pname:
+            return True
+        ds = defs.get(expr.id, [])
+        if depth > 0 and len(ds) == 1 and isinstance(ds[0], ast.AST):
+            return is_param_or_defaulted(ds[0], pname, defs, depth - 1)
+        # `k = CONST` on one branch, `k = pname` on the other (the conditional expression written as a statement)
+        if depth > 0 and len(ds) >= 2 and all(isinstance(d, ast.AST) for d in ds):
+            params_ = [d for d in ds if not isinstance(d, ast.Constant)]
+            return bool(params_) and all(is_param_or_defaulted(d, pname, defs, depth - 1) for d in params_)
+        return False
+    if isinstance(expr, ast.IfExp) and isinstance(expr.test, ast.Compare) and len(expr.test.ops) == 1 and isinstance(expr.test.left, ast.Name) and expr.test.left.id == pname \
+            and isinstance(expr.test.comparators[0], ast.Constant) and expr.test.comparators[0].value is None:
+        if isinstance(expr.test.ops[0], ast.Is):
+            return isinstance(expr.body, ast.Constant) and is_param_or_defaulted(expr.orelse, pname, defs, depth)
+        if isinstance(expr.test.ops[0], ast.IsNot):
+            return isinstance(expr.orelse, ast.Constant) and is_param_or_defaulted(expr.body, pname, defs, depth)
+    return False
